@@ -1,4 +1,15 @@
 TEXT = {
+ 'C09': {
+  'text': 'Lean 4 theorems: for EVERY storage word, slot, offset and width the value journal records exactly solPacked (Solidity packed '
+          'layout) when (offset,width) is a valid field and rejects otherwise; for EVERY storage function, slot and keccak the reference '
+          'journal records exactly solString (any length, any content incl. leading zeros, 31/32 boundary, multi-slot) when the length '
+          'word is a valid encoding and rejects otherwise (incl. lengths >= 2^64). The model of the two opcodes is tied to '
+          'vm/instructions.go on every run by executing them inside real bytecode and comparing outcome + tracer queries, and the '
+          'implementation is additionally compared with the specification functions directly (S solpacked / S solstring lines).',
+  'note': 'Trusted: Lean kernel + propext/Classical.choice/Quot.sound; hand-written model of the opcodes (Model/Journal.lean) validated by '
+          'correspondence; keccak uninterpreted (digest/preimage pairs supplied by the harness); uint256/Go-slice semantics as modelled.',
+  'technique': 'Lean 4 proof of model = Solidity-layout specification for all inputs + model/implementation correspondence on real bytecode',
+ },
  'C16': {
   'text': 'Lean 4 proof that every tracer query that ranges over a Go map returns a list independent of the iteration order '
           '(iteration order is an explicit adversarial permutation argument); all other answers are pure functions of the operation '
